@@ -338,7 +338,8 @@ def _check_case(spec, seed, res, count=True):
     from maltoolbox.language import LanguageGraph, LanguageClassesFactory
     lang = Lang(spec)
     try:
-        lg = LanguageGraph(copy.deepcopy(spec))
+        from ..stream import language_graph_by_route
+        lg, _given = language_graph_by_route({'spec': spec}, copy.deepcopy(spec))
         factory = LanguageClassesFactory(lg)
     except Exception as exc:
         return ('build:raised-%s' % type(exc).__name__, 'building classes for a well-formed language raised %r' % (exc,))
